@@ -129,7 +129,7 @@ class Registry(object):
         d2 = dict(d)
         d2.pop('aspects')
         d2.setdefault('path', k)
-        for key in ('requires', 'ensures', 'modifies', 'ghost', 'lemmas'):
+        for key in ('requires', 'ensures', 'modifies', 'ghost', 'lemmas', 'entry_assume'):
           d2[key] = list(d.get(key, ())) + list(ad.get(key, ()))
         loops = dict((o, dict(l)) for o, l in d.get('loops', {}).items())
         for o, extra in ad.get('loops', {}).items():
